@@ -7,7 +7,7 @@ use tonic::{Code, Status};
 use vcommon::body::{spin, Ev, ScriptBody};
 use vcommon::*;
 
-const IMPORTS: &str = "From Verif Require Import Lib.Bytes Lib.Obs Lib.HeaderMap Model.Status.";
+const IMPORTS: &str = "From Verif Require Import Lib.Bytes Lib.Obs Lib.HeaderMap Model.Status Model.StatusExt.";
 
 const MSG_PREFIX: &str = "Error deserializing status message header: ";
 const DET_PREFIX: &str = "Error deserializing status details header: ";
@@ -45,10 +45,11 @@ fn gen_message(r: &mut Rng) -> String {
         "a", "Z", "0", " ", "%", "\"", "#", "<", ">", "?", "{", "}", "`", "\u{7f}", "\u{0}", "\n", "\t",
         "\u{1f}", "é", "ß", "€", "語", "😀", "\u{10FFFF}", "%41", "%zz", "+", "/", "=", ":", "~", "|",
     ];
-    let n = match r.below(10) {
-        0 => 0,
-        1..=6 => r.range(1, 8),
-        7 | 8 => r.range(9, 30),
+    let n = match r.below(40) {
+        0..=3 => 0,
+        4..=27 => r.range(1, 8),
+        28..=35 => r.range(9, 30),
+        36..=38 => r.range(31, 60),
         _ => r.range(100, 300),
     };
     (0..n).map(|_| *r.pick(pieces)).collect()
@@ -73,10 +74,12 @@ fn gen_ascii_value(r: &mut Rng) -> String {
 }
 fn gen_metadata(r: &mut Rng, allow_details_key: bool) -> MetadataMap {
     let mut m = MetadataMap::new();
-    let n = match r.below(6) {
-        0 => 0,
-        1..=3 => r.range(1, 3),
-        _ => r.range(4, 7),
+    let n = match r.below(24) {
+        0..=3 => 0,
+        4..=15 => r.range(1, 3),
+        16..=21 => r.range(4, 7),
+        22 => r.range(8, 20),
+        _ => r.range(21, 60),
     };
     for _ in 0..n {
         let mut k = *r.pick(KEYS);
@@ -98,94 +101,292 @@ fn gen_metadata(r: &mut Rng, allow_details_key: bool) -> MetadataMap {
     m
 }
 
-fn is_status_key(k: &str) -> bool {
-    matches!(
-        k,
-        "te" | "user-agent" | "content-type" | "grpc-message" | "grpc-message-type" | "grpc-status"
-            | "grpc-status-details-bin"
-    )
+// ------------------------------------------------------------------ kinds: a status written to headers
+/// where the status is written: a fresh map (add_header), the trailers of a server stream
+/// (Status::to_header_map through EncodeBody::new_server), the head of a Trailers-Only response
+/// (Status::into_http), an existing map (add_header into `pre`)
+#[derive(Clone, Copy, PartialEq, Debug)]
+enum Sink {
+    Fresh,
+    Trailers,
+    IntoHttp,
+    Into,
 }
-
-// ------------------------------------------------------------------ kind: roundtrip
-fn case_roundtrip(out: &mut Out, code: u32, msg: &str, details: &[u8], md: MetadataMap, corpus: bool) {
-    let mdh = md.clone().into_headers();
-    let st = Status::with_details_and_metadata(
-        Code::from_i32(code as i32),
-        msg.to_string(),
-        Bytes::copy_from_slice(details),
-        md,
-    );
-    let model = format!("obs_roundtrip {}", status_coq(code, msg.as_bytes(), details, &mdh));
-    let mut oracle = None;
-    let res = catch(std::panic::AssertUnwindSafe(|| {
-        let mut hm = HeaderMap::new();
-        match st.add_header(&mut hm) {
-            Err(_) => (Tr::L(vec![Tr::n(0u8)]), Some("add_header returned Err (illegal header value)".to_string())),
-            Ok(()) => {
-                let back = Status::from_header_map(&hm);
-                let mut why = None;
-                match &back {
-                    None => why = Some("status not found in the headers it was written to".to_string()),
-                    Some(b) => {
-                        let has_details_key = mdh.contains_key("grpc-status-details-bin");
-                        if b.code() as i32 as u32 != code {
-                            why = Some(format!("code {} read back as {}", code, b.code() as i32));
-                        } else if b.message() != msg {
-                            why = Some("message changed".to_string());
-                        } else if !has_details_key && b.details() != details {
-                            why = Some("details changed".to_string());
-                        } else {
-                            let bm = b.metadata().clone().into_headers();
-                            for k in mdh.keys() {
-                                if is_status_key(k.as_str()) {
-                                    continue;
-                                }
-                                let a: Vec<_> = mdh.get_all(k).iter().collect();
-                                let c: Vec<_> = bm.get_all(k).iter().collect();
-                                if a != c {
-                                    why = Some(format!("metadata {} changed", k));
-                                }
-                            }
-                            for k in bm.keys() {
-                                if !mdh.contains_key(k) {
-                                    why = Some(format!("metadata {} appeared", k));
-                                }
-                            }
-                        }
-                        if hm.get_all("grpc-status").iter().count() != 1 {
-                            why = Some("not exactly one grpc-status".to_string());
-                        }
-                    }
-                }
-                (
-                    Tr::L(vec![Tr::n(1u8), hm_tr(&hm), Tr::opt(back.as_ref().map(status_tr))]),
-                    why,
-                )
+impl Sink {
+    fn kind(self) -> &'static str {
+        match self {
+            Sink::Fresh => "roundtrip",
+            Sink::Trailers => "trailers",
+            Sink::IntoHttp => "into_http",
+            Sink::Into => "add_header.into",
+        }
+    }
+}
+enum Wrote {
+    Map(HeaderMap),
+    Err,
+}
+/// run the real code; a panic is reported by the caller (catch)
+fn write_status(st: Status, sink: Sink, pre: &HeaderMap) -> Wrote {
+    match sink {
+        Sink::Fresh | Sink::Into => {
+            let mut hm = pre.clone();
+            match st.add_header(&mut hm) {
+                Ok(()) => Wrote::Map(hm),
+                Err(_) => Wrote::Err,
             }
         }
-    }));
-    let obs = match res {
-        Ok((t, why)) => {
-            oracle = why;
-            t
+        Sink::IntoHttp => Wrote::Map(st.into_http::<()>().headers().clone()),
+        Sink::Trailers => {
+            use http_body::Body;
+            let src = tokio_stream::iter(vec![Err::<Vec<u8>, Status>(st)]);
+            let body = tonic::codec::EncodeBody::new_server(RawEncoder, src, None, Default::default(), None);
+            let mut body = Box::pin(body);
+            let w = vcommon::body::noop_waker();
+            let mut cx = std::task::Context::from_waker(&w);
+            match body.as_mut().poll_frame(&mut cx) {
+                std::task::Poll::Ready(Some(Ok(f))) => match f.into_trailers() {
+                    Ok(t) => Wrote::Map(t),
+                    Err(_) => panic!("harness: a data frame instead of trailers"),
+                },
+                std::task::Poll::Ready(Some(Err(_))) => Wrote::Err,
+                _ => panic!("harness: no trailers frame"),
+            }
         }
-        Err(p) => {
-            oracle = Some(format!("panic: {}", p));
-            Tr::L(vec![Tr::n(99u8)])
+    }
+}
+fn legal_value(v: &[u8]) -> bool {
+    v.iter().all(|b| *b == 9 || (0x20..0x7f).contains(b) || *b >= 0x80)
+}
+const STATUS_NAMES: &[&str] = &["grpc-status", "grpc-message", "grpc-status-details-bin"];
+/// names MetadataMap::into_sanitized_headers strips (written from the gRPC protocol, not from tonic)
+const SANITIZED: &[&str] = &["te", "user-agent", "content-type", "grpc-message", "grpc-message-type", "grpc-status"];
+
+/// The property's direct check on what was written, independent of the model AND (for the wire
+/// format) of tonic's decoders: grpc-status is the decimal code, grpc-message percent-decodes
+/// (own decoder) to the message, grpc-status-details-bin is unpadded base64 (own decoder) of the
+/// details, every value is a legal header value, and Status::from_header_map reads an equal
+/// status back (metadata: the target map extended by the status metadata minus the reserved
+/// names).  `base` = what the target map held before (content-type for into_http).
+fn judge_written(code: u32, msg: &str, details: &[u8], mdh: &HeaderMap, base: &HeaderMap, hm: &HeaderMap) -> Option<String> {
+    for (k, v) in hm.iter() {
+        if !legal_value(v.as_bytes()) {
+            return Some(format!("illegal header value written under {}", k));
+        }
+    }
+    let sv: Vec<_> = hm.get_all("grpc-status").iter().collect();
+    if sv.len() != 1 || sv[0].as_bytes() != code.to_string().as_bytes() {
+        return Some(format!("grpc-status is not exactly the decimal code {}", code));
+    }
+    let stale_msg = base.contains_key("grpc-message");
+    let stale_det = base.contains_key("grpc-status-details-bin") || mdh.contains_key("grpc-status-details-bin");
+    let mv: Vec<_> = hm.get_all("grpc-message").iter().collect();
+    if !msg.is_empty() {
+        if mv.len() != 1 {
+            return Some("not exactly one grpc-message".into());
+        }
+        let raw = mv[0].as_bytes();
+        if !raw.iter().all(|b| (0x20..0x7f).contains(b)) {
+            return Some("grpc-message is not printable ASCII".into());
+        }
+        if indep_pct(raw) != msg.as_bytes() {
+            return Some("grpc-message does not percent-decode to the message".into());
+        }
+    } else if !stale_msg && !mv.is_empty() {
+        return Some("grpc-message written for an empty message".into());
+    }
+    let dv: Vec<_> = hm.get_all("grpc-status-details-bin").iter().collect();
+    if !details.is_empty() {
+        if dv.len() != 1 {
+            return Some("not exactly one grpc-status-details-bin".into());
+        }
+        let raw = dv[0].as_bytes();
+        if raw.contains(&b'=') {
+            return Some("grpc-status-details-bin is padded".into());
+        }
+        if indep_b64(raw).as_deref() != Some(details) {
+            return Some("grpc-status-details-bin does not decode to the details".into());
+        }
+    } else if !stale_det && !dv.is_empty() {
+        return Some("grpc-status-details-bin written for empty details".into());
+    }
+    // the target map already carried a grpc-message / grpc-status-details-bin that this status
+    // does not overwrite (only possible for add_header into a caller-supplied map): what is read
+    // back is then the caller's stale header - outside the property (premise of
+    // c04_add_header_roundtrip), tie only
+    if (msg.is_empty() && stale_msg) || (details.is_empty() && base.contains_key("grpc-status-details-bin")) {
+        return None;
+    }
+    let b = match Status::from_header_map(hm) {
+        None => return Some("status not found in the headers it was written to".into()),
+        Some(b) => b,
+    };
+    if b.code() as i32 as u32 != code {
+        return Some(format!("code {} read back as {}", code, b.code() as i32));
+    }
+    if b.message() != msg {
+        return Some("message changed".into());
+    }
+    // empty details + a grpc-status-details-bin entry in the metadata / target map: not judged
+    // (observation, see checks/C04.json)
+    if (!details.is_empty() || !stale_det) && b.details() != details {
+        return Some("details changed".into());
+    }
+    let bm = b.metadata().clone().into_headers();
+    let mut names: std::collections::BTreeSet<String> = Default::default();
+    for m in [mdh, base, &bm] {
+        for k in m.keys() {
+            names.insert(k.as_str().to_string());
+        }
+    }
+    for k in names {
+        let got: Vec<&[u8]> = bm.get_all(k.as_str()).iter().map(|v| v.as_bytes()).collect();
+        let want: Vec<&[u8]> = if STATUS_NAMES.contains(&k.as_str()) {
+            vec![]
+        } else if SANITIZED.contains(&k.as_str()) || !mdh.contains_key(k.as_str()) {
+            base.get_all(k.as_str()).iter().map(|v| v.as_bytes()).collect()
+        } else {
+            mdh.get_all(k.as_str()).iter().map(|v| v.as_bytes()).collect()
+        };
+        if got != want {
+            return Some(if SANITIZED.contains(&k.as_str()) && mdh.contains_key(k.as_str()) {
+                format!("reserved name {} of the status metadata came back", k)
+            } else {
+                format!("metadata {} changed", k)
+            });
+        }
+    }
+    None
+}
+
+fn case_written(out: &mut Out, sink: Sink, code: u32, msg: &str, details: &[u8], md: MetadataMap, pre: HeaderMap, corpus: bool) {
+    let mdh = md.clone().into_headers();
+    let st = Status::with_details_and_metadata(Code::from_i32(code as i32), msg.to_string(), Bytes::copy_from_slice(details), md);
+    let stc = status_coq(code, msg.as_bytes(), details, &mdh);
+    let model = match sink {
+        Sink::Fresh => format!("obs_roundtrip_c {}", stc),
+        Sink::Trailers => format!("obs_trailers {}", stc),
+        Sink::IntoHttp => format!("obs_into_http {}", stc),
+        Sink::Into => format!("obs_add_header {} {}", stc, coq_hm(&pre)),
+    };
+    let mut base = pre.clone();
+    if sink == Sink::IntoHttp {
+        base.insert("content-type", HeaderValue::from_static("application/grpc"));
+    }
+    let res = catch(std::panic::AssertUnwindSafe(|| write_status(st, sink, &pre)));
+    let (obs, oracle) = match res {
+        Err(p) => (Tr::L(vec![Tr::n(99u8)]), Some(format!("panic: {}", p))),
+        Ok(Wrote::Err) => (Tr::L(vec![Tr::n(0u8)]), Some("writing the status returned Err (illegal header value)".to_string())),
+        Ok(Wrote::Map(hm)) => {
+            let back = Status::from_header_map(&hm);
+            let why = judge_written(code, msg, details, &mdh, &base, &hm);
+            (Tr::L(vec![Tr::n(1u8), hm_tr(&hm), Tr::opt(back.as_ref().map(status_tr))]), why)
         }
     };
-    out.hist("roundtrip.msg_len", bucket(msg.len()));
-    out.hist("roundtrip.details_len_mod3", details.len() % 3);
-    out.hist("roundtrip.md_entries", mdh.len());
+    let k = sink.kind();
+    out.hist(&format!("{}.msg_len", k), bucket(msg.len()));
+    out.hist(&format!("{}.details_len_mod3", k), details.len() % 3);
+    out.hist(&format!("{}.md_entries", k), bucket(mdh.len()));
+    if sink == Sink::Into {
+        out.hist("add_header.into.pre_entries", pre.len());
+    }
     out.push(Case {
-        kind: if corpus { "corpus.roundtrip".into() } else { "roundtrip".into() },
-        input: json!({"code": code, "msg": hex(msg.as_bytes()), "details": hex(details), "md": hm_json(&mdh)}),
+        kind: if corpus { format!("corpus.{}", k) } else { k.to_string() },
+        input: json!({"code": code, "msg": hex(msg.as_bytes()), "details": hex(details), "md": hm_json(&mdh), "pre": hm_json(&pre)}),
         model,
         impl_obs: obs,
         oracle,
         nontrivial: !msg.is_empty() || !details.is_empty() || !mdh.is_empty(),
     });
 }
+fn case_roundtrip(out: &mut Out, code: u32, msg: &str, details: &[u8], md: MetadataMap, corpus: bool) {
+    case_written(out, Sink::Fresh, code, msg, details, md, HeaderMap::new(), corpus);
+}
+
+// ------------------------------------------------------------------ kinds: capacity.* (http::HeaderMap holds 24576 names)
+/// the metadata of the Coq side's `cap_md names dups`: `names` distinct ascending names k00000...,
+/// then `dups` further values under the one name x-dup
+fn cap_md(names: usize, dups: usize) -> MetadataMap {
+    let mut m = MetadataMap::new();
+    for i in 0..names {
+        m.append(MetadataKey::from_bytes(format!("k{:05}", i).as_bytes()).unwrap(), MetadataValue::from_static("v"));
+    }
+    for _ in 0..dups {
+        m.append(MetadataKey::from_static("x-dup"), MetadataValue::from_static("v"));
+    }
+    m
+}
+const HM_MAX_NAMES: usize = 24576;
+fn case_capacity(out: &mut Out, sink: Sink, names: usize, dups: usize, msg: &str, details: &[u8], pre: HeaderMap, witness: Option<&str>) {
+    let code = 5u32;
+    let md = cap_md(names, dups);
+    let mdh = md.clone().into_headers();
+    let st = Status::with_details_and_metadata(Code::from_i32(code as i32), msg.to_string(), Bytes::copy_from_slice(details), md);
+    let args = format!("{} {} {} {} {}", code, coq_bytes(msg.as_bytes()), coq_bytes(details), names, dups);
+    let model = match sink {
+        Sink::Trailers => format!("obs_cap_trailers {}", args),
+        Sink::IntoHttp => format!("obs_cap_into_http {}", args),
+        _ => format!("obs_cap_add {} {}", args, coq_hm(&pre)),
+    };
+    let mut base = pre.clone();
+    if sink == Sink::IntoHttp {
+        base.insert("content-type", HeaderValue::from_static("application/grpc"));
+    }
+    // independent expectation: the finished map holds these names
+    let mut fin: std::collections::BTreeSet<String> = base.keys().map(|k| k.as_str().to_string()).collect();
+    let base_names = fin.len();
+    for k in mdh.keys() {
+        if !SANITIZED.contains(&k.as_str()) {
+            fin.insert(k.as_str().to_string());
+        }
+    }
+    fin.insert("grpc-status".into());
+    if !msg.is_empty() {
+        fin.insert("grpc-message".into());
+    }
+    if !details.is_empty() {
+        fin.insert("grpc-status-details-bin".into());
+    }
+    let fits = fin.len() <= HM_MAX_NAMES;
+    // http's insert reserves a slot before it looks the name up: a map that is exactly full
+    // refuses even a name it already holds.  Only possible when the target map already had one
+    // of the names that are written; not tonic's to decide - tie only.
+    let written = ["grpc-status", "grpc-message", "grpc-status-details-bin"];
+    let corner = fits
+        && fin.len() == HM_MAX_NAMES
+        && pre.keys().any(|k| written.contains(&k.as_str()) || mdh.contains_key(k));
+    let _ = base_names;
+    let res = catch(std::panic::AssertUnwindSafe(|| write_status(st, sink, &pre)));
+    let (obs, oracle) = match res {
+        Err(p) => (
+            Tr::L(vec![Tr::n(99u8)]),
+            if fits && !corner { Some(format!("panic although the finished map has only {} names: {}", fin.len(), p)) } else { None },
+        ),
+        Ok(Wrote::Err) => (Tr::L(vec![Tr::n(0u8)]), Some("writing the status returned Err".to_string())),
+        Ok(Wrote::Map(hm)) => {
+            let mut why = judge_written(code, msg, details, &mdh, &base, &hm);
+            if why.is_none() && hm.keys_len() != fin.len() {
+                why = Some(format!("{} names written, {} expected", hm.keys_len(), fin.len()));
+            }
+            (Tr::L(vec![Tr::n(1u8), Tr::n(hm.keys_len() as u64), Tr::n(hm.len() as u64)]), why)
+        }
+    };
+    let k = match sink {
+        Sink::Trailers => "capacity.trailers",
+        Sink::IntoHttp => "capacity.into_http",
+        _ => "capacity.add_header",
+    };
+    out.hist("capacity.finished_names_minus_24576", fin.len() as i64 - HM_MAX_NAMES as i64);
+    out.push(Case {
+        kind: format!("corpus.{}{}", k, witness.map(|w| format!(".{}", w)).unwrap_or_default()),
+        input: json!({"names": names, "dups": dups, "msg": hex(msg.as_bytes()), "details": hex(details), "pre": hm_json(&pre), "sink": format!("{:?}", sink)}),
+        model,
+        impl_obs: obs,
+        oracle,
+        nontrivial: true,
+    });
+}
+
 fn bucket(n: usize) -> String {
     match n {
         0 => "0".into(),
@@ -289,7 +490,7 @@ const DET_VALUES: &[&[u8]] = &[
     b"", b"QQ", b"QQ=", b"QQ==", b"QQ===", b"QR", b"Q", b"QU JD", b"!!!", b"=", b"==", b"A=", b"AA=A",
     b"AAAA", b"AAA=", b"AAA", b"AAAAA", b"AAAAAA", b"AAAAAA==", b"AAAAAAA", b"AAAAAAA=", b"/+/+", b"-_-_",
     b"QUJD", b"QUJDRA", b"QUJDRA==", b"QUJDRA=", b"QUJD=", b"QUJD====", b"Zm9vYg==", b"Zm9vYh==", b"Zm9vYmE=",
-    b"Zm9vYmF=", b"\xff\xff\xff\xff", b"AA\nA", b"AAAA\n",
+    b"Zm9vYmF=", b"\xff\xff\xff\xff", b"AA\tA", b"AAAA\t", b"AAAA ", b" AAAA",
 ];
 fn gen_value(r: &mut Rng, pool: &[&[u8]], alphabet: &[u8]) -> Vec<u8> {
     if r.chance(2, 3) {
@@ -304,6 +505,9 @@ fn case_hostile(out: &mut Out, entries: Vec<(String, Vec<u8>)>, corpus: bool) {
     for (k, v) in &entries {
         if let (Ok(k), Ok(v)) = (HeaderName::from_bytes(k.as_bytes()), HeaderValue::from_bytes(v)) {
             hm.append(k, v);
+        } else {
+            // not a header an HTTP stack can deliver: never silently
+            out.hist("hostile.entries_not_representable", hex(v));
         }
     }
     let model = format!("obs_from_headers {}", coq_hm(&hm));
@@ -340,6 +544,14 @@ fn case_hostile(out: &mut Out, entries: Vec<(String, Vec<u8>)>, corpus: bool) {
                         if st.details() != &d[..] {
                             why = Some("decodable grpc-status-details-bin not read exactly".to_string());
                         }
+                        // a canonical code with decodable fields is that code
+                        if let Some(cv) = hm.get("grpc-status") {
+                            if let Some(n) = (0..17u32).find(|i| i.to_string().as_bytes() == cv.as_bytes()) {
+                                if st.code() as i32 as u32 != n {
+                                    why = Some(format!("grpc-status {} read as code {}", n, st.code() as i32));
+                                }
+                            }
+                        }
                     }
                     _ => {
                         if st.code() != Code::Unknown {
@@ -350,6 +562,19 @@ fn case_hostile(out: &mut Out, entries: Vec<(String, Vec<u8>)>, corpus: bool) {
             }
             if st.is_some() != hm.contains_key("grpc-status") {
                 why = Some("presence of status does not match presence of grpc-status".to_string());
+            }
+            // exactly the three status headers are stripped; every other header is metadata
+            if let Some(st) = &st {
+                let md = st.metadata().clone().into_headers();
+                let mut names: std::collections::BTreeSet<&str> = hm.keys().map(|k| k.as_str()).collect();
+                names.extend(md.keys().map(|k| k.as_str()));
+                for k in names {
+                    let got: Vec<&[u8]> = md.get_all(k).iter().map(|v| v.as_bytes()).collect();
+                    let want: Vec<&[u8]> = if STATUS_NAMES.contains(&k) { vec![] } else { hm.get_all(k).iter().map(|v| v.as_bytes()).collect() };
+                    if got != want {
+                        why = Some(format!("header {} is not carried into the status metadata as it was", k));
+                    }
+                }
             }
             (Tr::opt(st.as_ref().map(status_tr)), why)
         }
@@ -378,6 +603,38 @@ impl tonic::codec::Decoder for RawDecoder {
         Ok(Some(v))
     }
 }
+/// what the property says a response with this HTTP status and these trailers (empty body) ends
+/// with: None = clean end, Some(code) = that error.  Written from the property text: a grpc-status
+/// in the trailers decides (malformed -> UNKNOWN, undecodable message/details -> UNKNOWN), else
+/// the gRPC HTTP mapping table.  Uses the oracle's own percent / base64 decoders.
+fn infer_expected(http: u16, trailers: Option<&HeaderMap>) -> Option<u32> {
+    if let Some(cv) = trailers.and_then(|t| t.get("grpc-status")) {
+        let t = trailers.unwrap();
+        let canonical: Vec<String> = (0..17).map(|i| i.to_string()).collect();
+        let mut code = canonical.iter().position(|c| c.as_bytes() == cv.as_bytes()).map(|i| i as u32).unwrap_or(2);
+        let msg_ok = match t.get("grpc-message") {
+            Some(m) => String::from_utf8(indep_pct(m.as_bytes())).is_ok(),
+            None => true,
+        };
+        let det_ok = match t.get("grpc-status-details-bin") {
+            Some(d) => indep_b64(d.as_bytes()).is_some(),
+            None => true,
+        };
+        if !msg_ok || !det_ok {
+            code = 2;
+        }
+        return if code == 0 { None } else { Some(code) };
+    }
+    match http {
+        200 => None,
+        400 => Some(13),
+        401 => Some(16),
+        403 => Some(7),
+        404 => Some(12),
+        429 | 502 | 503 | 504 => Some(14),
+        _ => Some(2),
+    }
+}
 fn case_infer(out: &mut Out, http: u16, trailers: Option<HeaderMap>) {
     let model = format!(
         "obs_infer_stream {} {}",
@@ -396,39 +653,34 @@ fn case_infer(out: &mut Out, http: u16, trailers: Option<HeaderMap>) {
         );
         spin(async { s.message().await }, 1000)
     }));
+    let want = infer_expected(http, trailers.as_ref());
     let (obs, oracle) = match res {
         Err(p) => (Tr::L(vec![Tr::n(99u8)]), Some(format!("panic: {}", p))),
         Ok(Err(())) => (Tr::L(vec![Tr::n(98u8)]), Some("hang".to_string())),
-        Ok(Ok(Ok(None))) => (Tr::L(vec![Tr::n(0u8)]), None),
+        Ok(Ok(Ok(None))) => (
+            Tr::L(vec![Tr::n(0u8)]),
+            want.map(|w| format!("HTTP {} with these trailers ended cleanly, expected code {}", http, w)),
+        ),
         Ok(Ok(Ok(Some(_)))) => (Tr::L(vec![Tr::n(97u8)]), Some("message from an empty body".into())),
         Ok(Ok(Err(st))) => {
-            // direct oracle for the no-trailers case: the gRPC HTTP mapping table
-            let mut why = None;
-            if trailers.is_none() {
-                let want = match http {
-                    400 => Code::Internal,
-                    401 => Code::Unauthenticated,
-                    403 => Code::PermissionDenied,
-                    404 => Code::Unimplemented,
-                    429 | 502 | 503 | 504 => Code::Unavailable,
-                    _ => Code::Unknown,
-                };
-                if st.code() != want {
-                    why = Some(format!("HTTP {} classified as {:?}, table says {:?}", http, st.code(), want));
-                }
-            }
+            let got = st.code() as i32 as u32;
+            let why = match want {
+                None => Some(format!("HTTP {} with these trailers gave code {}, expected a clean end", http, got)),
+                Some(w) if w != got => Some(format!("HTTP {} with these trailers classified as code {}, expected {}", http, got, w)),
+                _ => None,
+            };
             (Tr::L(vec![Tr::n(2u8), status_tr(&st)]), why)
         }
     };
-    let oracle = match (&oracle, http, &trailers) {
-        (None, 200, None) => None,
-        (None, h, None) if h != 200 && obs == Tr::L(vec![Tr::n(0u8)]) => {
-            Some(format!("HTTP {} without grpc-status gave a clean end", h))
-        }
-        _ => oracle,
-    };
+    let has_status = trailers.as_ref().map(|t| t.contains_key("grpc-status"));
+    out.hist("infer.http_class", format!("{}xx", http / 100));
+    out.hist("infer.trailers", match has_status { None => "none", Some(true) => "with grpc-status", Some(false) => "without grpc-status" });
     out.push(Case {
-        kind: if trailers.is_some() { "infer.trailers".into() } else { "infer.http".into() },
+        kind: match has_status {
+            None => "infer.http".into(),
+            Some(true) => "infer.trailers".into(),
+            Some(false) => "infer.trailers_no_status".into(),
+        },
         input: json!({"http": http, "trailers": trailers.as_ref().map(hm_json)}),
         model,
         impl_obs: obs,
@@ -444,12 +696,14 @@ fn case_tables(out: &mut Out, thorough: bool) {
     for n in reasons {
         let st = Status::from(h2::Error::from(h2::Reason::from(n)));
         let want = match n {
-            0 | 1 | 2 | 3 | 4 | 9 | 10 => Some(Code::Internal),
+            0 | 1 | 2 | 3 | 4 | 6 | 9 | 10 => Some(Code::Internal),
             7 => Some(Code::Unavailable),
             8 => Some(Code::Cancelled),
             11 => Some(Code::ResourceExhausted),
             12 => Some(Code::PermissionDenied),
-            5 | 6 | 13 => None, // INTERNAL or UNKNOWN are both acceptable readings of the property
+            // STREAM_CLOSED ("no mapping" in the gRPC table) and HTTP_1_1_REQUIRED (not in it):
+            // the property text does not decide, INTERNAL or UNKNOWN
+            5 | 13 => None,
             _ => Some(Code::Unknown),
         };
         let oracle = match want {
@@ -579,12 +833,12 @@ fn case_from_error(out: &mut Out, nodes: Vec<(u8, u32)>) {
     // direct oracle for the simplest chains: a bare h2 error is classified by the gRPC table
     if let [(3, r)] = nodes[..] {
         let want = match r {
-            0 | 1 | 2 | 3 | 4 | 9 | 10 => Some(13),
+            0 | 1 | 2 | 3 | 4 | 6 | 9 | 10 => Some(13),
             7 => Some(14),
             8 => Some(1),
             11 => Some(8),
             12 => Some(7),
-            5 | 6 | 13 => None,
+            5 | 13 => None,
             _ => Some(2),
         };
         if let (Some(w), Tr::N(c)) = (want, &obs) {
@@ -704,12 +958,12 @@ fn case_reset(out: &mut Out, reason: u32, late: bool) {
         Ok(Err(e)) => (Tr::n(98u8), Some(e)),
         Ok(Ok(c)) => {
             let want = match reason {
-                0 | 1 | 2 | 3 | 4 | 9 | 10 => Some(13),
+                0 | 1 | 2 | 3 | 4 | 6 | 9 | 10 => Some(13),
                 7 => Some(14),
                 8 => Some(1),
                 11 => Some(8),
                 12 => Some(7),
-                5 | 6 | 13 => None,
+                5 | 13 => None,
                 _ => Some(2),
             };
             let why = match want {
@@ -730,6 +984,303 @@ fn case_reset(out: &mut Out, reason: u32, late: bool) {
     });
 }
 
+// ------------------------------------------------------------------ kinds with GENUINE hyper / transport errors
+/// describe a real error chain (the error, then its sources) in the model's alphabet, by
+/// downcasting every node the way a reader of the gRPC property would classify it
+fn describe_chain(e: &(dyn std::error::Error + 'static)) -> (Vec<String>, Vec<serde_json::Value>) {
+    let mut coq = vec![];
+    let mut js = vec![];
+    let mut cur = Some(e);
+    while let Some(n) = cur {
+        if let Some(st) = n.downcast_ref::<Status>() {
+            coq.push(format!("EStatus {}", st.code() as i32));
+            js.push(json!({"status": st.code() as i32}));
+        } else if n.downcast_ref::<tonic::TimeoutExpired>().is_some() {
+            coq.push("ETimeout".into());
+            js.push(json!("timeout-expired"));
+        } else if n.downcast_ref::<tonic::ConnectError>().is_some() {
+            coq.push("EConnect".into());
+            js.push(json!("connect-error"));
+        } else if let Some(h) = n.downcast_ref::<h2::Error>() {
+            let r: Option<u32> = h.reason().map(|r| r.into());
+            coq.push(format!("EH2 {}", coq_opt(&r, |r| r.to_string())));
+            js.push(json!({"h2": r}));
+        } else if let Some(h) = n.downcast_ref::<hyper::Error>() {
+            let src: Option<Option<u32>> = n.source().and_then(|s| s.downcast_ref::<h2::Error>()).map(|h| h.reason().map(|r| r.into()));
+            coq.push(format!(
+                "EHyper {} {} {}",
+                coq_bool(h.is_timeout()),
+                coq_bool(h.is_canceled()),
+                coq_opt(&src, |o| format!("({})", coq_opt(o, |r| r.to_string())))
+            ));
+            js.push(json!({"hyper": {"timeout": h.is_timeout(), "canceled": h.is_canceled(), "h2_source": src}}));
+        } else {
+            coq.push("EOther".into());
+            js.push(json!("other"));
+        }
+        cur = n.source();
+    }
+    (coq, js)
+}
+fn h2_want(r: u32) -> Option<u32> {
+    match r {
+        0 | 1 | 2 | 3 | 4 | 6 | 9 | 10 => Some(13),
+        7 => Some(14),
+        8 => Some(1),
+        11 => Some(8),
+        12 => Some(7),
+        5 | 13 => None,
+        _ => Some(2),
+    }
+}
+struct NoBody;
+impl http_body::Body for NoBody {
+    type Data = Bytes;
+    type Error = std::convert::Infallible;
+    fn poll_frame(self: std::pin::Pin<&mut Self>, _: &mut std::task::Context<'_>) -> std::task::Poll<Option<Result<http_body::Frame<Bytes>, Self::Error>>> {
+        std::task::Poll::Ready(None)
+    }
+    fn is_end_stream(&self) -> bool {
+        true
+    }
+}
+#[derive(Clone, Copy, Debug, PartialEq)]
+enum HyperHow {
+    /// the peer resets the stream before / after the response headers
+    Reset(u32, bool),
+    /// the connection task is dropped before the request is sent
+    ConnDropped,
+    /// the peer stops answering: hyper's HTTP/2 keep-alive PING times out
+    KeepAlive,
+}
+/// a hyper::Error as hyper itself produces it, from a real HTTP/2 exchange over a duplex pipe
+fn make_hyper_error(how: HyperHow) -> Option<hyper::Error> {
+    let rt = tokio::runtime::Builder::new_current_thread().enable_all().build().unwrap();
+    rt.block_on(async move {
+        let (c, s) = tokio::io::duplex(1 << 16);
+        let (reason, late) = match how {
+            HyperHow::Reset(r, l) => (r, l),
+            _ => (0, false),
+        };
+        tokio::spawn(async move {
+            let mut conn = match h2::server::handshake(s).await {
+                Ok(c) => c,
+                Err(_) => return,
+            };
+            while let Some(Ok((_req, mut respond))) = conn.accept().await {
+                if how == HyperHow::KeepAlive {
+                    // hold the stream and stop driving the connection: PINGs stay unanswered
+                    tokio::time::sleep(std::time::Duration::from_secs(30)).await;
+                    drop(respond);
+                    return;
+                }
+                if late {
+                    let resp = http::Response::builder().status(200).body(()).unwrap();
+                    if let Ok(mut send) = respond.send_response(resp, false) {
+                        send.send_reset(h2::Reason::from(reason));
+                    }
+                } else {
+                    respond.send_reset(h2::Reason::from(reason));
+                }
+            }
+        });
+        let mut builder = hyper::client::conn::http2::Builder::new(hyper_util::rt::TokioExecutor::new());
+        if how == HyperHow::KeepAlive {
+            builder
+                .timer(hyper_util::rt::TokioTimer::new())
+                .keep_alive_interval(std::time::Duration::from_millis(40))
+                .keep_alive_timeout(std::time::Duration::from_millis(40))
+                .keep_alive_while_idle(true);
+        }
+        let (mut send, conn) = builder.handshake::<_, NoBody>(hyper_util::rt::TokioIo::new(c)).await.ok()?;
+        if how == HyperHow::ConnDropped {
+            drop(conn);
+        } else {
+            tokio::spawn(conn);
+        }
+        let req = http::Request::builder().method("POST").uri("http://pipe.test/p.S/M").body(NoBody).unwrap();
+        let fut = async {
+            match send.send_request(req).await {
+                Err(e) => Some(e),
+                Ok(resp) => {
+                    use http_body::Body;
+                    let mut body = resp.into_body();
+                    loop {
+                        match std::future::poll_fn(|cx| std::pin::Pin::new(&mut body).poll_frame(cx)).await {
+                            Some(Err(e)) => return Some(e),
+                            Some(Ok(_)) => continue,
+                            None => return None,
+                        }
+                    }
+                }
+            }
+        };
+        tokio::time::timeout(std::time::Duration::from_secs(20), fut).await.ok().flatten()
+    })
+}
+/// Status::from_error on a chain that contains the genuine hyper error, under `wrap` wrappers
+/// (kind 5 = unknown wrapper, 2 = ConnectError); the model input is the DESCRIPTION of the real
+/// chain, not what the harness meant to build
+fn case_from_error_hyper(out: &mut Out, how: HyperHow, wrap: &[u8]) {
+    let e = match make_hyper_error(how) {
+        Some(e) => e,
+        None => {
+            out.hist("from_error_hyper.not_produced", format!("{:?}", how));
+            return;
+        }
+    };
+    let mut err: Box<dyn std::error::Error + Send + Sync> = Box::new(e);
+    for w in wrap.iter().rev() {
+        err = match w {
+            2 => Box::new(tonic::ConnectError(err)),
+            _ => Box::new(Wrap(Some(err))),
+        };
+    }
+    let (coq, js) = describe_chain(&*err);
+    let hyper_pos = js.iter().position(|n| n.get("hyper").is_some());
+    let model = format!("Nn (from_error_code [{}])", coq.join("; "));
+    let res = catch(std::panic::AssertUnwindSafe(|| Status::from_error(err).code() as i32 as u32));
+    let (obs, oracle) = match res {
+        Err(p) => (Tr::n(99u8), Some(format!("panic: {}", p))),
+        Ok(c) => {
+            let mut why = None;
+            if hyper_pos.is_none() {
+                why = Some("harness: no hyper error in the chain".to_string());
+            } else if wrap.contains(&2) {
+                if c != 14 {
+                    why = Some("a ConnectError was not classified UNAVAILABLE".into());
+                }
+            } else if let HyperHow::Reset(r, _) = how {
+                // a reset stream is classified from the HTTP/2 error code
+                let h = &js[hyper_pos.unwrap()]["hyper"];
+                if h["timeout"] == json!(false) && h["canceled"] == json!(false) {
+                    if h["h2_source"] != json!(r) {
+                        why = Some(format!("hyper's error for RST_STREAM({}) does not carry that h2 reason: {}", r, h));
+                    } else {
+                        match h2_want(r) {
+                            Some(w) if w != c => why = Some(format!("stream reset with HTTP/2 error {} classified as code {}, table says {}", r, c, w)),
+                            None if c != 13 && c != 2 => why = Some(format!("stream reset with HTTP/2 error {} classified as code {}", r, c)),
+                            _ => {}
+                        }
+                    }
+                }
+            }
+            (Tr::n(c), why)
+        }
+    };
+    out.hist("from_error_hyper.shape", coq.iter().map(|n| n.split(' ').next().unwrap_or("")).collect::<Vec<_>>().join(">"));
+    out.push(Case {
+        kind: "table.from_error_hyper".into(),
+        input: json!({"how": format!("{:?}", how), "wrap": wrap, "chain": js}),
+        model,
+        impl_obs: obs,
+        oracle,
+        nontrivial: true,
+    });
+}
+/// the error the tonic Channel (used as a tower Service) returns for a stream that the peer
+/// resets before the response headers: its real source chain is described, must have the shape
+/// "unknown wrappers, then hyper's error with the h2 reason as its source" (the premise of
+/// c04_reset_stream_wrapped), and Status::from_error of it must follow the table
+fn case_reset_chain(out: &mut Out, reason: u32) {
+    let rt = tokio::runtime::Builder::new_current_thread().enable_all().build().unwrap();
+    let res: Result<Result<tonic::transport::Error, String>, String> = catch(std::panic::AssertUnwindSafe(|| {
+        rt.block_on(async move {
+            let (c, s) = tokio::io::duplex(1 << 16);
+            tokio::spawn(async move {
+                let mut conn = match h2::server::handshake(s).await {
+                    Ok(c) => c,
+                    Err(_) => return,
+                };
+                while let Some(Ok((_req, mut respond))) = conn.accept().await {
+                    respond.send_reset(h2::Reason::from(reason));
+                }
+            });
+            let ep = tonic::transport::Endpoint::from_static("http://pipe.test");
+            let mut ch = ep.connect_with_connector_lazy(PipeConnector(std::sync::Arc::new(std::sync::Mutex::new(Some(c)))));
+            let fut = async {
+                use tower_service::Service;
+                std::future::poll_fn(|cx| ch.poll_ready(cx)).await.map_err(|e| format!("not ready: {}", e))?;
+                let req = http::Request::builder()
+                    .method("POST")
+                    .uri("http://pipe.test/p.S/M")
+                    .header("content-type", "application/grpc")
+                    .header("te", "trailers")
+                    .body(tonic::body::Body::default())
+                    .unwrap();
+                match ch.call(req).await {
+                    Ok(_) => Err("the channel answered although the stream was reset".to_string()),
+                    Err(e) => Ok(e),
+                }
+            };
+            match tokio::time::timeout(std::time::Duration::from_secs(20), fut).await {
+                Ok(r) => r,
+                Err(_) => Err("hang".to_string()),
+            }
+        })
+    }));
+    let (model, obs, oracle, js) = match res {
+        Err(p) => ("Nn 0".to_string(), Tr::n(99u8), Some(format!("panic: {}", p)), vec![]),
+        Ok(Err(e)) => ("Nn 0".to_string(), Tr::n(98u8), Some(e), vec![]),
+        Ok(Ok(e)) => {
+            let (coq, js) = describe_chain(&e);
+            let hp = js.iter().position(|n| n.get("hyper").is_some());
+            let mut why = None;
+            match hp {
+                None => why = Some(format!("no hyper error in the chain of a reset stream: {:?}", js)),
+                Some(i) => {
+                    let h = &js[i]["hyper"];
+                    if js[..i].iter().any(|n| n != &json!("other")) {
+                        why = Some(format!("a recognised node above hyper's error in the chain of a reset stream: {:?}", js));
+                    } else if h["timeout"] != json!(false) || h["canceled"] != json!(false) || h["h2_source"] != json!(reason) {
+                        why = Some(format!("hyper's error for RST_STREAM({}) is {}", reason, h));
+                    }
+                }
+            }
+            let c = Status::from_error(Box::new(e)).code() as i32 as u32;
+            if why.is_none() {
+                match h2_want(reason) {
+                    Some(w) if w != c => why = Some(format!("stream reset with HTTP/2 error {} seen as code {}, table says {}", reason, c, w)),
+                    None if c != 13 && c != 2 => why = Some(format!("stream reset with HTTP/2 error {} seen as code {}", reason, c)),
+                    _ => {}
+                }
+            }
+            out.hist("reset.chain.shape", coq.iter().map(|n| n.split(' ').next().unwrap_or("")).collect::<Vec<_>>().join(">"));
+            (format!("Nn (from_error_code [{}])", coq.join("; ")), Tr::n(c), why, js)
+        }
+    };
+    out.push(Case {
+        kind: "reset.chain".into(),
+        input: json!({"reason": reason, "chain": js}),
+        model,
+        impl_obs: obs,
+        oracle,
+        nontrivial: true,
+    });
+}
+
+fn gen_pre(r: &mut Rng) -> HeaderMap {
+    let names = ["content-type", "x-a", "x-pre", "date", "grpc-status", "x-trace-id", "grpc-encoding", "te"];
+    let mut m = HeaderMap::new();
+    for _ in 0..r.range(1, 4) {
+        let mut k = *r.pick(&names);
+        if r.chance(1, 10) {
+            k = *r.pick(&["grpc-message", "grpc-status-details-bin"]);
+        }
+        if let Ok(v) = HeaderValue::from_str(&gen_ascii_value(r)) {
+            m.append(HeaderName::from_static(k), v);
+        }
+    }
+    m
+}
+fn md_from_json(v: &serde_json::Value) -> MetadataMap {
+    let mut md = MetadataMap::new();
+    for (k, val) in hm_from_json(v).iter() {
+        md.as_mut().append(k.clone(), val.clone());
+    }
+    md
+}
+
 fn main() {
     let a = args();
     let mut out = Out::new(&a.out);
@@ -740,17 +1291,38 @@ fn main() {
         let v: serde_json::Value = serde_json::from_str(&std::fs::read_to_string(f).unwrap()).unwrap();
         let c = if v.get("first_disagreement").is_some() { &v["first_disagreement"] } else { &v };
         let (kind, inp) = (c["kind"].as_str().unwrap_or(""), &c["input"]);
-        if kind.ends_with("roundtrip") {
-            let mut md = MetadataMap::new();
-            for (k, val) in hm_from_json(&inp["md"]).iter() {
-                md.as_mut().append(k.clone(), val.clone());
-            }
-            case_roundtrip(
+        let kind = kind.strip_prefix("corpus.").unwrap_or(kind);
+        let sink = if kind.starts_with("roundtrip") {
+            Some(Sink::Fresh)
+        } else if kind.starts_with("trailers") || kind.starts_with("capacity.trailers") {
+            Some(Sink::Trailers)
+        } else if kind.starts_with("into_http") || kind.starts_with("capacity.into_http") {
+            Some(Sink::IntoHttp)
+        } else if kind.starts_with("add_header.into") || kind.starts_with("capacity.add_header") {
+            Some(Sink::Into)
+        } else {
+            None
+        };
+        if kind.starts_with("capacity") {
+            case_capacity(
                 &mut out,
+                sink.unwrap(),
+                inp["names"].as_u64().unwrap() as usize,
+                inp["dups"].as_u64().unwrap() as usize,
+                &String::from_utf8(unhex(inp["msg"].as_str().unwrap())).unwrap(),
+                &unhex(inp["details"].as_str().unwrap()),
+                hm_from_json(&inp["pre"]),
+                None,
+            );
+        } else if let Some(sink) = sink {
+            case_written(
+                &mut out,
+                sink,
                 inp["code"].as_u64().unwrap() as u32,
                 &String::from_utf8(unhex(inp["msg"].as_str().unwrap())).unwrap(),
                 &unhex(inp["details"].as_str().unwrap()),
-                md,
+                md_from_json(&inp["md"]),
+                if inp["pre"].is_array() { hm_from_json(&inp["pre"]) } else { HeaderMap::new() },
                 false,
             );
         } else if kind.ends_with("hostile") {
@@ -762,6 +1334,13 @@ fn main() {
         } else if kind.starts_with("infer") {
             let t = if inp["trailers"].is_null() { None } else { Some(hm_from_json(&inp["trailers"])) };
             case_infer(&mut out, inp["http"].as_u64().unwrap() as u16, t);
+        } else if kind.starts_with("reset.chain") {
+            case_reset_chain(&mut out, inp["reason"].as_u64().unwrap() as u32);
+        } else if kind.starts_with("reset") {
+            case_reset(&mut out, inp["reason"].as_u64().unwrap() as u32, inp["late"].as_bool().unwrap_or(false));
+        } else if kind == "table.from_error" {
+            let nodes: Vec<(u8, u32)> = inp["chain"].as_array().unwrap().iter().map(|n| (n[0].as_u64().unwrap() as u8, n[1].as_u64().unwrap() as u32)).collect();
+            case_from_error(&mut out, nodes);
         } else {
             case_tables(&mut out, true);
         }
@@ -782,12 +1361,78 @@ fn main() {
     case_roundtrip(&mut out, 5, "a:b c%\u{7f}é", b"\x00\x01\x02\x03", MetadataMap::new(), true);
     for c in 0..17 {
         case_roundtrip(&mut out, c, "", b"", MetadataMap::new(), true);
+        case_written(&mut out, Sink::Trailers, c, "", b"", MetadataMap::new(), HeaderMap::new(), true);
+        case_written(&mut out, Sink::IntoHttp, c, "m", b"", MetadataMap::new(), HeaderMap::new(), true);
     }
+    // a status whose metadata carries every reserved name: none may reach the wire or come back
+    {
+        let mut md = MetadataMap::new();
+        for k in SANITIZED {
+            md.append(MetadataKey::from_bytes(k.as_bytes()).unwrap(), MetadataValue::from_static("forged"));
+        }
+        md.append(MetadataKey::from_static("x-keep"), MetadataValue::from_static("1"));
+        for sink in [Sink::Fresh, Sink::Trailers, Sink::IntoHttp] {
+            case_written(&mut out, sink, 7, "denied", b"\x01", md.clone(), HeaderMap::new(), true);
+        }
+        let mut pre = HeaderMap::new();
+        pre.insert("content-type", HeaderValue::from_static("application/grpc"));
+        pre.insert("grpc-status", HeaderValue::from_static("0"));
+        pre.insert("x-keep", HeaderValue::from_static("old"));
+        pre.insert("x-pre", HeaderValue::from_static("stays"));
+        case_written(&mut out, Sink::Into, 7, "denied", b"\x01", md, pre, true);
+    }
+    // F-C04d (fixed 08dc8d0b): many VALUES under one name through the trailers of a server stream
+    for (names, dups, msg) in [(0usize, 24574usize, "m"), (0, 24574, ""), (0, 24573, "m"), (0, 30000, "m"), (24574, 0, ""), (1, 24573, "")] {
+        case_capacity(&mut out, Sink::Trailers, names, dups, msg, b"", HeaderMap::new(), Some("F-C04d"));
+    }
+    // the capacity of http::HeaderMap (24576 names): every sink, on both sides of the boundary
+    for (sink, names, msg, det) in [
+        (Sink::Trailers, 24573usize, "m", &b"d"[..]),
+        (Sink::Trailers, 24574, "", b""),
+        (Sink::Trailers, 24574, "m", b""),
+        (Sink::Trailers, 24574, "m", b"d"),
+        (Sink::Trailers, 24575, "", b""),
+        (Sink::Trailers, 24575, "m", b""),
+        (Sink::Trailers, 24576, "", b""),
+        (Sink::Fresh, 24572, "m", b"d"),
+        (Sink::Fresh, 24574, "m", b""),
+        (Sink::Fresh, 24574, "m", b"d"),
+        (Sink::Fresh, 24575, "", b""),
+        (Sink::Fresh, 24575, "m", b""),
+        (Sink::Fresh, 24576, "", b""),
+        (Sink::IntoHttp, 24573, "m", b""),
+        (Sink::IntoHttp, 24573, "m", b"d"),
+        (Sink::IntoHttp, 24574, "", b""),
+        (Sink::IntoHttp, 24574, "m", b""),
+        (Sink::IntoHttp, 24575, "", b""),
+    ] {
+        case_capacity(&mut out, sink, names, 0, msg, det, HeaderMap::new(), None);
+    }
+    for (names, pre_name) in [(24575usize, "grpc-status"), (24574, "grpc-status"), (24575, "zz"), (24574, "zz"), (24576, "k00000"), (24575, "k00000")] {
+        let mut pre = HeaderMap::new();
+        pre.insert(HeaderName::from_static(pre_name), HeaderValue::from_static("9"));
+        case_capacity(&mut out, Sink::Into, names, 0, "", b"", pre, None);
+    }
+    case_capacity(&mut out, Sink::Fresh, 24570, 40000, "m", b"d", HeaderMap::new(), None);
 
     case_tables(&mut out, a.thorough);
     for r in (0..=16u32).chain([255, 65536]) {
         case_reset(&mut out, r, false);
         case_reset(&mut out, r, true);
+        case_reset_chain(&mut out, r);
+    }
+    // genuine hyper errors inside error chains
+    for r in (0..=14u32).chain([255]) {
+        for late in [false, true] {
+            case_from_error_hyper(&mut out, HyperHow::Reset(r, late), &[]);
+        }
+        case_from_error_hyper(&mut out, HyperHow::Reset(r, false), &[5]);
+        case_from_error_hyper(&mut out, HyperHow::Reset(r, true), &[5, 5, 5]);
+    }
+    for wrap in [&[][..], &[5][..], &[5, 5][..], &[2][..], &[5, 2][..]] {
+        case_from_error_hyper(&mut out, HyperHow::KeepAlive, wrap);
+        case_from_error_hyper(&mut out, HyperHow::ConnDropped, wrap);
+        case_from_error_hyper(&mut out, HyperHow::Reset(7, false), wrap);
     }
     // error chains: every single node, every pair, random longer chains
     let node_pool: Vec<(u8, u32)> = (0..17u32).map(|c| (0u8, c)).chain([(1, 0), (2, 0), (5, 0)]).chain((0..=14u32).map(|r| (3u8, r))).chain([(3u8, 255u32)]).collect();
@@ -797,7 +1442,7 @@ fn main() {
             case_from_error(&mut out, vec![a2, *a1]);
         }
     }
-    for _ in 0..(if a.thorough { 3000 } else { 300 }) {
+    for _ in 0..(if a.thorough { 2000 } else { 300 }) {
         let n = r.range(2, 5) as usize;
         let ch: Vec<(u8, u32)> = (0..n).map(|_| *r.pick(&node_pool)).collect();
         case_from_error(&mut out, ch);
@@ -806,13 +1451,23 @@ fn main() {
         case_infer(&mut out, h, None);
     }
 
-    let (n_rt, n_host, n_inf) = if a.thorough { (20000, 20000, 4000) } else { (1200, 1200, 300) };
+    let (n_rt, n_host, n_inf, n_sink) = if a.thorough { (2500, 5000, 2000, 800) } else { (800, 1000, 600, 250) };
     for _ in 0..n_rt {
         let code = r.below(17) as u32;
         let msg = gen_message(&mut r);
         let det = gen_details(&mut r);
         let md = gen_metadata(&mut r, true);
         case_roundtrip(&mut out, code, &msg, &det, md, false);
+    }
+    for sink in [Sink::Trailers, Sink::IntoHttp, Sink::Into] {
+        for _ in 0..n_sink {
+            let code = r.below(17) as u32;
+            let msg = gen_message(&mut r);
+            let det = gen_details(&mut r);
+            let md = gen_metadata(&mut r, true);
+            let pre = if sink == Sink::Into { gen_pre(&mut r) } else { HeaderMap::new() };
+            case_written(&mut out, sink, code, &msg, &det, md, pre, false);
+        }
     }
     let extra_keys = ["x-a", "x-b-bin", "te", "content-type", "grpc-encoding"];
     for _ in 0..n_host {
@@ -839,11 +1494,16 @@ fn main() {
         }
         case_hostile(&mut out, e, false);
     }
-    let https = [200u16, 200, 200, 400, 401, 404, 429, 500, 503, 302, 100, 204];
+    // status inference: any HTTP status 100..=599 (half uniformly, half from the table's own
+    // entries and their neighbours) x trailers with / without a grpc-status
+    let https = [200u16, 200, 200, 400, 401, 403, 404, 429, 500, 502, 503, 504, 302, 100, 204, 399, 402, 405, 428, 430, 501, 505, 599];
     for _ in 0..n_inf {
         let mut t = HeaderMap::new();
-        if r.chance(4, 5) {
+        if r.chance(2, 3) {
             t.append("grpc-status", HeaderValue::from_bytes(&gen_value(&mut r, CODE_VALUES, b"0123456789")).unwrap());
+            if r.chance(1, 10) {
+                t.append("grpc-status", HeaderValue::from_bytes(&gen_value(&mut r, CODE_VALUES, b"0123456789")).unwrap());
+            }
         }
         if r.chance(1, 2) {
             if let Ok(v) = HeaderValue::from_bytes(&gen_value(&mut r, MSG_VALUES, b"%0123456789abcdef z")) {
@@ -858,12 +1518,13 @@ fn main() {
         if r.chance(1, 3) {
             t.append("x-a", HeaderValue::from_static("v"));
         }
-        case_infer(&mut out, *r.pick(&https), Some(t));
+        let http = if r.chance(1, 2) { r.range(100, 599) as u16 } else { *r.pick(&https) };
+        case_infer(&mut out, http, Some(t));
     }
 
     out.finish(
         IMPORTS,
-        "roundtrip: random statuses (17 codes x messages over a hostile alphabet x details of every length mod 3 x metadata incl. reserved names), non-trivial = any of message/details/metadata non-empty; hostile: arbitrary status header maps (malformed codes, percent escapes, base64), non-trivial = >= 2 headers; infer: every HTTP status 100..599 without trailers plus random trailers; tables: h2 reasons, Code::from_i32/from_bytes/to_h2. Distinct = distinct (kind, model expression).",
+        "roundtrip / trailers / into_http / add_header.into: random statuses (17 codes x messages over a hostile alphabet x details of every length mod 3 x metadata of 0..60 entries incl. reserved names and repeated values) written by Status::add_header into a fresh map, by Status::to_header_map through EncodeBody::new_server, by Status::into_http, by add_header into a random existing map, and read back; non-trivial = any of message/details/metadata non-empty; capacity.*: metadata of 24572..24576 distinct names / up to 40000 values of one name around the capacity of http::HeaderMap; hostile: arbitrary status header maps (malformed codes, percent escapes, base64), non-trivial = >= 2 headers; infer: every HTTP status 100..599 without trailers plus random trailers (with and without grpc-status) x any HTTP status; tables: h2 reasons, Code::from_i32/from_bytes/to_h2; from_error: synthetic chains and chains around genuine hyper errors; reset.*: a real RST_STREAM through the Channel. Distinct = distinct (kind, model expression).",
         json!({}),
     );
 }
